@@ -154,6 +154,20 @@ base64 (standard alphabet, padded), newline -/
 def clientLine (k : Key) (body pad : List Char) : List Char :=
   (sshTypeName k).getD [] ++ ' ' :: (body ++ pad ++ ['\n'])
 
+/-! ### where the private key goes at installation -/
+
+inductive KeyDest
+  | agent (sock : List Char)   -- handed to whatever accepts connections on this socket path
+  | file (mode : Nat)
+deriving DecidableEq, Repr
+
+/-- `insertSSHCertIntoAgentORWriteToFilesystem` + `connectToDefaultSSHAgentLocation` (non-Windows):
+the only socket ever dialled is `$SSH_AUTH_SOCK` (the empty path when unset, which nothing listens on);
+if nothing takes the key there it is written to a file with mode 0600.
+`listening p`: a process accepts agent connections on path `p`. -/
+def installDest (sshAuthSock : List Char) (listening : List Char → Bool) : KeyDest :=
+  if sshAuthSock != [] && listening sshAuthSock then .agent sshAuthSock else .file 0o600
+
 /-! ### agent -/
 
 /-- an identity the agent lists; `isCert = false` for plain keys and for identities whose blob
